@@ -69,15 +69,19 @@ def run(name, tier, props):
     dst = os.path.join(VERIF, "seeded", name)
     meta = json.load(open(os.path.join(dst, "meta.json")))
     props = props or meta.get("breaks") or [meta.get("property")]
-    if sh("git -C %s status --porcelain --untracked-files=no" % REPO).stdout.strip():
-        print("/repo has local modifications; refusing"); return 2
-    r = sh("git -C %s apply %s" % (REPO, os.path.join(dst, "patch.diff")))
-    if r.returncode: print("patch does not apply to /repo:", r.stdout); return 2
+    # the checks look at a scratch worktree of /repo with the change applied (ST_REPO), so /repo itself is never touched
+    # and other work on /repo can go on meanwhile; the worktree is removed straight afterwards
+    wt = "/tmp/wt/run-%s-%d" % (name, os.getpid())
+    os.makedirs("/tmp/wt", exist_ok=True)
+    r = sh("git -C %s worktree add -q --detach %s HEAD" % (REPO, wt))
+    if r.returncode: print(r.stdout); return 2
     res = {}
     try:
+        r = sh("git -C %s apply %s" % (wt, os.path.join(dst, "patch.diff")))
+        if r.returncode: print("patch does not apply:", r.stdout); return 2
         for p in props:
             t0 = time.time()
-            r = sh("python3 %s %s --tier %s" % (os.path.join(HERE, "check.py"), p, tier), cwd=VERIF)
+            r = sh("python3 %s %s --tier %s" % (os.path.join(HERE, "check.py"), p, tier), cwd=VERIF, env=dict(os.environ, ST_REPO=wt))
             lines = [l for l in r.stdout.splitlines() if l.startswith("VIOLATION") or l.startswith("KNOWN-FINDING")]
             res[p] = dict(rc=r.returncode, lines=lines[:6], wall_s=round(time.time() - t0, 1))
             # keep the replay of the first violation next to the seeded change
@@ -89,7 +93,9 @@ def run(name, tier, props):
                     break
             print(p, res[p])
     finally:
-        sh("git -C %s checkout -- ." % REPO)
+        sh("git -C %s worktree remove --force %s" % (REPO, wt))
+        for tool in ("gen_tables.py", "gen_statics.py"):      # generated Lean files back to what /repo says
+            sh("python3 %s" % os.path.join(HERE, tool), env=dict(os.environ, ST_REPO=REPO))
     meta.setdefault("detected_by", {})[tier] = res
     json.dump(meta, open(os.path.join(dst, "meta.json"), "w"), indent=1)
     # restore the evidence files of the unchanged tree (they were rewritten by the run against the patched tree)
